@@ -168,24 +168,25 @@ def sdaiStringRead (s : IS) : IS × List Byte :=
 
 /-! ### ReadComment( istream &, std::string & ) -/
 
-/-- the `while( commentLength <= MAX_COMMENT_LENGTH )` loop: `iters` is the number of iterations the guard admits.
-Returns `none` when the guard stopped the loop, `some` when the comment was closed. -/
-def commentLoop : Nat → IS → Byte → Nat → Nat → (Option Unit) × IS × Byte × Nat × Nat
-  | 0, s, c, len, steps => (none, s, c, len, steps)
-  | iters + 1, s, c, len, steps =>
-    let (s1, c1) := match s.get with
-      | (s', some c') => (s', c')
-      | (s', none) => (s', c)
-    if c1 = chStar then
-      let (s2, c2) := match s1.get with
-        | (s', some c') => (s', c')
-        | (s', none) => (s', c1)
-      if c2 = chSlash then (some (), s2, c2, len, steps + 1)
-      else commentLoop iters (s2.putback c2) c2 (len + 1) (steps + 1)
-    else commentLoop iters s1 c1 (len + 1) (steps + 1)
+/-- the `while( commentLength <= MAX_COMMENT_LENGTH )` loop.  `limit` is the number of iterations the guard admits, `left`
+what is left of them.  Since /repo 9cc7a1b5 the counter starts again whenever it has run out while the stream is good
+(`if( commentLength > MAX_COMMENT_LENGTH && in.good() ) commentLength = 0;` at the end of the body): the limit ends the loop
+only when the input has ended inside the comment (`in.get` fails, `c` stays what it was).  `fuel` bounds the iterations of
+the model.  Returns `none` when the guard stopped the loop, `some` when the comment was closed. -/
+def commentLoop (limit : Nat) : Nat → Nat → IS → Byte → Nat → Nat → Out ((Option Unit) × IS × Byte × Nat × Nat)
+  | 0, _, _, _, _, _ => .outOfFuel
+  | fuel + 1, left, s, c, len, steps =>
+    if left = 0 then .ok (none, s, c, len, steps)
+    else if (s.get).2.getD c = chStar then
+      if ((s.get).1.get).2.getD chStar = chSlash then .ok (some (), ((s.get).1.get).1, chSlash, len, steps + 1)
+      else commentLoop limit fuel
+        (if left - 1 = 0 && (((s.get).1.get).1.putback (((s.get).1.get).2.getD chStar)).good then limit else left - 1)
+        (((s.get).1.get).1.putback (((s.get).1.get).2.getD chStar)) (((s.get).1.get).2.getD chStar) (len + 1) (steps + 1)
+    else commentLoop limit fuel (if left - 1 = 0 && (s.get).1.good then limit else left - 1)
+      (s.get).1 ((s.get).2.getD c) (len + 1) (steps + 1)
 
-/-- `ReadComment`; `skip` is the `SkipInstance` it falls back to when the comment is longer than the limit.
-`sev` carries the return value: 1 = a comment string is returned, 0 = null pointer -/
+/-- `ReadComment`; `skip` is the `SkipInstance` it falls back to when the guard ends the loop (the input ended inside the
+comment).  `sev` carries the return value: 1 = a comment string is returned, 0 = null pointer -/
 def readCommentWith (skip : IS → Out LoopRes) (iters : Nat) (s : IS) : Out LoopRes :=
   let s := s.ws
   let (s, c) := match s.extract with
@@ -197,13 +198,15 @@ def readCommentWith (skip : IS → Out LoopRes) (iters : Nat) (s : IS) : Out Loo
       | (s', none) => (s', c)
     if c1 = chStar then
       let s2 := s1.ws
-      match commentLoop iters s2 c1 0 0 with
-      | (some _, s3, _, len, steps) => .ok ⟨s3, 1, len, steps⟩
-      | (none, s3, _, len, steps) =>
+      match commentLoop iters (s2.rest.length + iters + 3) iters s2 c1 0 0 with
+      | .ok (some _, s3, _, len, steps) => .ok ⟨s3, 1, len, steps⟩
+      | .ok (none, s3, _, len, steps) =>
         match skip s3 with
         | .ok r => .ok ⟨r.s, 1, len, steps + r.steps⟩
         | .overflow i c => .overflow i c
         | .outOfFuel => .outOfFuel
+      | .overflow i c => .overflow i c
+      | .outOfFuel => .outOfFuel
     else .ok ⟨s1.putback c1, 0, 0, 0⟩
   else .ok ⟨s.putback c, 0, 0, 0⟩
 
